@@ -55,7 +55,7 @@ func init() {
 	reg("C07", ruleExitClosesThroughStateCheck, ruleStateMachine, ruleNoReturnBeforeStateGuard)
 	reg("C02", ruleEmittedFlagsNamesOnlyWhenComplete, ruleEmittedReadersOverwrite, ruleJsonKinds, ruleUnionTagDecision, ruleKindTests, ruleOptionalFieldSymmetry, ruleJsonNamesAreModelNames)
 	reg("C14", ruleUnionIndexUnsignedOnTheWire, ruleJsonNamesAreModelNames, ruleEnumDefaultBaseIsInt32, ruleUnionIndexSkipsNull, ruleNoContradictoryShapeTests, rulePlan, ruleUnionTagDecision, ruleRecordOrder, ruleOptionalFieldSymmetry, ruleTrivialRecordTrait, ruleMatlabExtentOrderAgrees)
-	reg("C10", ruleNilableFieldsBeforeAbortingDefault, ruleNilReachesNoAbortingDefault, ruleNoUncheckedAssertionsInFrontEnd, ruleYamlDecodedStrictly, ruleSinksOnlyGrow, rulePassOrder, rulePairAccess, ruleConstIndex(frontEndNoEvolution, "P2", 30), ruleMakeBounds, ruleErrorProvenance, ruleBreakInSwitchInLoop, rulePositions, ruleNodeLiteralsPositioned, ruleBigIndex, ruleAborts(frontEndNoEvolution, "P4", 25), ruleDecodeLoopLeavesOnError, ruleContextLiteralsComplete, ruleDecodeIntoPointerPointer, ruleNullTypeOnlyInUnions, ruleOptionalDeref(func(f string) bool { return frontEndNoEvolution(f) || evolutionFiles(f) }, "NP1", 33),
+	reg("C10", ruleSameNodeRecursionDiscriminated, ruleNilableFieldsBeforeAbortingDefault, ruleNilReachesNoAbortingDefault, ruleNoUncheckedAssertionsInFrontEnd, ruleYamlDecodedStrictly, ruleSinksOnlyGrow, rulePassOrder, rulePairAccess, ruleConstIndex(frontEndNoEvolution, "P2", 30), ruleMakeBounds, ruleErrorProvenance, ruleBreakInSwitchInLoop, rulePositions, ruleNodeLiteralsPositioned, ruleBigIndex, ruleAborts(frontEndNoEvolution, "P4", 25), ruleDecodeLoopLeavesOnError, ruleContextLiteralsComplete, ruleDecodeIntoPointerPointer, ruleNullTypeOnlyInUnions, ruleOptionalDeref(func(f string) bool { return frontEndNoEvolution(f) || evolutionFiles(f) }, "NP1", 33),
 		ruleE3(frontScope, "E3"), ruleCollectPackages, ruleBinaryOperatorTokens, ruleReflectiveWalkTerminates)
 	reg("C20", ruleWhoMayWrite, ruleWriteIfNeeded, ruleWatchSetUnchangedOnFailure, ruleWatchStartsBeforeGeneratingAndAlwaysGenerates, ruleNoRunTimeGlobals, ruleWatchSerialised, ruleWatchRecovers, ruleChdirRestored, ruleWatchEveryEventSchedules, ruleWatchSurvivesErrors, ruleWatchInputsNotMutated)
 	reg("C18", ruleDependenciesFirst, ruleMemoKeysAgree, ruleCollectPackages, ruleTemporaryCwdPathsAbsolute, ruleNamespaceFlattening, ruleAllModelsValidated, ruleNoSelfComparison(frontEndFile, "E6", 1), ruleLookedUpMapsAreFilled(frontEndFile, "D1", 15), ruleE2(frontScope, "E2"), ruleE5(frontScope, "E5"))
